@@ -11,6 +11,7 @@ sys.path.insert(0, "/verif")
 from checks_config import CHECKS
 
 COV = "/tmp/cov"
+BUILT = set()
 H = "/verif/harness"
 
 
@@ -27,7 +28,8 @@ def splitmix(*parts):
 
 def build(pkg):
     out = f"{COV}/{pkg}.cover.test"
-    if not os.path.exists(out):
+    if out not in BUILT:
+        BUILT.add(out)
         subprocess.check_call(["go", "test", "-c", "-vet=off", "-tags", "verif", "-cover", "-covermode=set",
                                "-coverpkg=github.com/zenon-network/go-zenon/...", "-o", out, "./" + pkg], cwd=H, env=goenv())
     return out
